@@ -10,7 +10,8 @@ Inductive logline :=
   | LOp (body pc : nat) (r : result)
   | LDrop (k : nat)                      (* payload of Arc k dropped *)
   | LInitTls (k body : nat) | LDropTls (k body : nat)
-  | LInitLazy (k : nat) | LDropLazy (k : nat).
+  | LInitLazy (k : nat) | LDropLazy (k : nat)
+  | LPoll (body pc : nat).               (* block_on polled its future *)
 
 Inductive blockcond := BNever | BAlways | BMutexLocked | BRwWrite | BRwAny | BChanEmpty.
 
@@ -72,6 +73,15 @@ Inductive micro :=
   | MArcGetMutPost (k i : nat) (unwrap : bool)
   | MTrackDrop (k : nat)
   | MTlsWith (k : nat)
+  | MBlockOn (a : nat) (v : N) (w : nat)
+  | MBoPoll (a : nat) (v : N) (w n k : nat)
+  | MBoLoad (a : nat) (v : N) (w n k : nat) (first : bool)
+  | MBoRegister (a : nat) (v : N) (w n k : nat)
+  | MBoDone (n k : nat)
+  | MArcIncRaw (k : nat)
+  | MArcDecRaw (k : nat)
+  | MWakerRelease (w : nat)
+  | MWakeTake (w : nat) (wake : bool)
   | MLazyGet (k : nat)
   | MPanic
   | MExplore | MStop | MSkip
@@ -165,15 +175,16 @@ Record hobj := mkHobj {
   ho_rx : bool;
   ho_slots : list bool;
   ho_track : bool;
-  ho_waiting : bool
+  ho_waiting : bool;
+  ho_waker : option (nat * nat)     (* AtomicWaker: (Notify, Arc) of the registered waker *)
 }.
 
 Definition hobj_of_decl (d : decl) : hobj :=
   match d with
-  | DArc => mkHobj 0%N [] false (true :: repeat false 7) false false
-  | DChan => mkHobj 0%N [] true [] false false
-  | DTrack => mkHobj 0%N [] false [] true false
-  | _ => mkHobj 0%N [] false [] false false
+  | DArc => mkHobj 0%N [] false (true :: repeat false 7) false false None
+  | DChan => mkHobj 0%N [] true [] false false None
+  | DTrack => mkHobj 0%N [] false [] true false None
+  | _ => mkHobj 0%N [] false [] false false None
   end.
 
 Record exec := mkExec {
